@@ -438,9 +438,18 @@ type cliMethod struct {
 
 func cliMethods() []cliMethod {
 	ctx := context.Background()
-	wc := func(sc *scriptClient) *webdav.Client { c, _ := webdav.NewClient(sc, "http://example.com/dav/"); return c }
-	cc := func(sc *scriptClient) *caldav.Client { c, _ := caldav.NewClient(sc, "http://example.com/dav/"); return c }
-	ac := func(sc *scriptClient) *carddav.Client { c, _ := carddav.NewClient(sc, "http://example.com/dav/"); return c }
+	wc := func(sc *scriptClient) *webdav.Client {
+		c, _ := webdav.NewClient(sc, "http://example.com/dav/")
+		return c
+	}
+	cc := func(sc *scriptClient) *caldav.Client {
+		c, _ := caldav.NewClient(sc, "http://example.com/dav/")
+		return c
+	}
+	ac := func(sc *scriptClient) *carddav.Client {
+		c, _ := carddav.NewClient(sc, "http://example.com/dav/")
+		return c
+	}
 	return []cliMethod{
 		{"webdav.FindCurrentUserPrincipal", "ms-flat", func(sc *scriptClient) (interface{}, error) { return wc(sc).FindCurrentUserPrincipal(ctx) }},
 		{"webdav.Stat", "ms-flat", func(sc *scriptClient) (interface{}, error) { return wc(sc).Stat(ctx, "/dav/x") }},
@@ -474,7 +483,9 @@ func cliMethods() []cliMethod {
 		{"caldav.MultiGetCalendar", "ms-list", func(sc *scriptClient) (interface{}, error) {
 			return cc(sc).MultiGetCalendar(ctx, "/dav/u/cal/a/", &caldav.CalendarMultiGet{Paths: []string{"/dav/u/cal/a/x.ics"}})
 		}},
-		{"caldav.GetCalendarObject", "getobj", func(sc *scriptClient) (interface{}, error) { return cc(sc).GetCalendarObject(ctx, "/dav/u/cal/a/x.ics") }},
+		{"caldav.GetCalendarObject", "getobj", func(sc *scriptClient) (interface{}, error) {
+			return cc(sc).GetCalendarObject(ctx, "/dav/u/cal/a/x.ics")
+		}},
 		{"caldav.PutCalendarObject", "putobj", func(sc *scriptClient) (interface{}, error) {
 			return cc(sc).PutCalendarObject(ctx, "/dav/u/cal/a/x.ics", simpleCal("u1", "s"))
 		}},
